@@ -20,6 +20,8 @@ CLAIMS = {
  "C09": ("design model check of stop immediacy + trace validation with triggers placed at every site", "5/C09"),
  "C13": ("exact oracle: TLC computes (Interp.tla, integer / rational arithmetic) the least-Frobenius-norm models of every poised lattice set and the symmetric-Broyden recursion over random update histories (incl. zero-residual replacements); every view of the real Quadratic / Models (value, gradient, Hessian, Hessian product, curvature, before and after a base shift, at two length scales) is compared within c*eps*cond; self-consistency clauses on real runs", "5/C13"),
  "C14": ("exact oracle: for every poised subset of the lattice, every candidate point and index, Models.determinants (one index and all indices) is compared with the ratio of two exact determinants computed by TLC (Bareiss), at three power-of-two scales with a reused Models object", "5/C14"),
+ "C15": ("Subproblem.tla enumerates the degeneracy classes (gradient signs, bound patterns incl. active at the origin, Hessian kinds, constraint rows incl. duplicated / parallel / rank-deficient, radii, power-of-two scales, improve_tcg) with small-integer instances; the five real solvers are called on each and TLC decides the admissibility clauses on order keys (exact inclusion in the bounds, radius, inequalities kept, null space of the equalities)", "5/C15"),
+ "C16": ("same universe; TLC computes on integer data the sign-pattern predicate Improvable and the exact projected-gradient Cauchy decrease (rational) and decides: no step worse than not moving, Cauchy decrease attained by the bound-constrained tangential step, strict improvement of the Cauchy geometry step when Improvable", "5/C16"),
  "C17": ("Constraints.tla: the theorem 'largest internal violation = largest excursion from [lb,ub]' checked by TLC on the limit/value lattice; the expected internal form (counts of inequalities / equalities, violations) of every constraint list of the universe is computed by TLC and replayed through minimize and the Problem object it builds", "5/C17"),
  "C18": ("TrustRegion.tla model-checked exhaustively on a dyadic lattice (constants over the boundary lattice of their domains); every exported transition replayed exactly into a real TrustRegion; trace validation of every iteration of real runs (order, monotonicity, bound, penalty, centre = least merit, ties, replaced slot)", "5/C18"),
  "C19": ("the documented domains / coupling relations / defaults transcribed into Options.tla; TLC enumerates the universe of supplied-subset x boundary-lattice cells (singles, coupled pairs, all ordered pairs), minimize is called for each cell and TLC decides from order keys whether the call had to raise and whether the completed settings satisfy relations and defaults", "5/C19"),
